@@ -55,10 +55,6 @@ AUDITED_R2 = {
     "RoundingIncrement::from_u16:RemainderByZero:0": "divisor is 10u16.checked_pow(..)? : a power of ten, never 0",
     "JsStringBuilder::capacity_from_layout:DivisionByZero:0": "DATA_SIZE = size_of::<D::Element>() of u8/u16 element types",
     "conversions::f64_to_int32:OverflowNeg:1": "`>> -exponent`: on this path -SIGNIFICAND_SIZE < exponent < 0 (the `<=` test returns 0 first)",
-    "JsValue::neg:OverflowNeg:0":
-        "public Rust API only: the Neg opcode goes through to_numeric()/f64 and constant folding never sees an "
-        "Integer32(i32::MIN) operand (the lexer produces 2147483648 as a float), so no source text reaches "
-        "`-num` with num == i32::MIN (triaged: `-(-2147483647 - 1)` yields 2147483648 with and without -O)",
 }
 
 CALLS = ("JsObject::call", "JsObject::construct", "JsValue::call", "JsFunction::call")
